@@ -111,7 +111,13 @@ def st_case(draw):
     n = draw(st.integers(2, 7))
     for _ in range(n):
         t = draw(st.sampled_from(["pre", "pre", "pre", "pre_invalid", "pre_invalid", "repeat", "fit", "fitpre",
-                                  "fitpre_invalid", "fitopts"]))
+                                  "fitpre_invalid", "fitopts", "held_edit", "held_edit"]))
+        if t == "held_edit":
+            # the caller keeps ONE options object, edits a nested value in place and passes the same object again
+            ops.append({"op": "held_edit", "method": draw(st.sampled_from(POC)),
+                        "region": draw(st.sampled_from(["baseline", "approach", "all"])),
+                        "via": draw(st.sampled_from(["apply", "fit"]))})
+            continue
         if t == "pre":
             ops.append({"op": "pre", "req": draw(st_valid_request())})
         elif t == "pre_invalid":
@@ -193,8 +199,33 @@ def check_case(case, ctx):
     rejected_before = False
     edits = False
     fresh_cols = columns(idnt)
+    held = {"steps": ["compute_tip_position", "correct_tip_offset", "correct_force_slope"],
+            "opts": {"correct_tip_offset": {"method": "deviation_from_baseline"},
+                     "correct_force_slope": {"region": "baseline", "strategy": "shift"}}}
+    held_used = False
     for n, op in enumerate(case["ops"]):
         kind = op["op"]
+        if kind == "held_edit":
+            if held_used:
+                held["opts"]["correct_tip_offset"]["method"] = op["method"]
+                held["opts"]["correct_force_slope"]["region"] = op["region"]
+            held_used = True
+            desc = dict(desc0, via="same objects re-passed (" + op["via"] + ")", request="valid")
+            with fitgen.catch() as box:
+                if op["via"] == "apply":
+                    idnt.apply_preprocessing(held["steps"], held["opts"])
+                else:
+                    idnt.fit_model(model_key="hertz_para", preprocessing=held["steps"], preprocessing_options=held["opts"])
+            f, exc_fresh = apply_fresh(curves, held["steps"], held["opts"])
+            if exc_fresh is None and (box["exc"] is None or op["via"] == "fit"):
+                ctx.check(columns_equal(ctx, idnt, f, ignore_fit=True), "columns-differ-from-fresh", desc,
+                          f"step {n}: options object edited in place to {held['opts']} and passed again: {diff_cols(idnt, f)}")
+                ctx.check(idnt.preprocessing_options == held["opts"], "applied-request-not-reported", desc,
+                          f"step {n}: curve reports {idnt.preprocessing_options}")
+                distinct_valid.add(repr((held["steps"], held["opts"])))
+                edits = True
+                last_req = {"op": "pre", "req": {"steps": list(held["steps"]), "opts": copy.deepcopy(held["opts"]), "valid": True}}
+            continue
         if kind == "repeat":
             if last_req is None:
                 continue
